@@ -41,7 +41,7 @@ AnnNeed(t) == IF t \in {"simple", "prefixed", "n63", "two"} THEN 6 ELSE 3
 EnvGood == {"ok", "emptyval", "twoeq"}
 EnvBad  == {"noeq", "noname", "empty", "null", "number"}
 
-NodeGood == {"path", "typed", "blk", "unbuf", "fifo", "perm", "permall", "owner", "hostpath"}
+NodeGood == {"path", "typed", "blk", "unbuf", "fifo", "perm", "permall", "permlong", "owner", "hostpath"}
 NodeBad  == {"null", "nopath", "emptypath", "badtype", "badperm", "strmajor", "unknown", "list"}
 NodeNeed(t) == IF t = "hostpath" THEN 5 ELSE 3
 
